@@ -33,14 +33,17 @@ Detection power (scratch copy, one mutant at a time, POREPY_SRC=<copy>): see MUT
 from __future__ import annotations
 
 META = {
-    "level": "exploration",
-    "engine": "sweep",
-    "technique": "run-time contract sweep (bounded stand-in for deduction): the upstream-selection postcondition of the real Upwind.discretize, "
-                 "exhaustively over all flux-sign patterns {-,0,+} x all Dirichlet/Neumann typings on tiny grids and seeded samples on larger "
-                 "1-D/2-D/3-D grids, num_components 1..3; explicit-Euler conservation/bounds postcondition of assemble_matrix_rhs on "
-                 "divergence-free no-flow fluxes",
-    "text": "Bounded assurance on the enumerated family (exhaustive only for the tiny grids named in the rule). The tier-P proof of the selection "
-            "clause sketched in DESIGN is not part of this file. Not covered: fracture (internal boundary) faces, UpwindCoupling, 0-d grids.",
+    "level": "other",
+    "engine": "pse",
+    "technique": "contract-based deductive verification of the selection clause: the real Upwind.discretize runs on a stub grid with symbolic "
+                 "face / cell counts, flux, cell-face relation and Dirichlet/Neumann typing; postconditions S1-S5 at a Skolem face / column / "
+                 "component pair discharged by z3 (num_components 1..3); plus a run-time contract sweep (bounded stand-in) of the same clauses "
+                 "exhaustively over all flux-sign patterns {-,0,+} x all typings on tiny grids and seeded samples on larger 1-D/2-D/3-D grids, "
+                 "and of the explicit-Euler conservation/bounds postcondition of assemble_matrix_rhs on divergence-free no-flow fluxes",
+    "text": "Tier P: upstream selection, empty rows on Neumann / Dirichlet-inflow faces, boundary matrices, for every grid satisfying the C21 "
+            "contract of cell_faces_as_dense / divergence and every flux and typing (index-set models of np.where / r_ / delete / coo_matrix / "
+            "kron are the trusted base). Transport clause (mass, bounds under CFL): bounded sweep only. Not covered: fracture (internal "
+            "boundary) faces, UpwindCoupling, 0-d grids.",
     "note": "oracle = incidence matrix cell_faces (C21) and dense numpy; the only tolerance is 1e-12 relative on mass / bounds",
 }
 
@@ -383,11 +386,128 @@ def sweep(rep, pp):
                                                       "dir_values": dirv, "nsteps": nsteps, "cfl_fraction": frac})
 
 
+# ----------------------------------------------------------------------------- tier P: the selection clause, all grids
+
+
+def case_selection(pp, k):
+    """The real Upwind.discretize on a stub grid with a symbolic number of faces / cells.  Grid contract (C21, checked there on
+    real grids): cell_faces_as_dense()[0, f] / [1, f] = the cell the normal of f points out of / into, or -1; not both -1, both
+    in range; divergence(1).sum(axis=0)[f] = [c0(f) >= 0] - [c1(f) >= 0].  BC contract (C39, proved there): is_dir / is_neu are
+    disjoint and true on boundary faces only; requires of the statement: every boundary face is Dirichlet or Neumann."""
+    import z3
+
+    from engine import sym
+    from engine.arrays import SymArray, SymRows
+    from engine.sym import SymBool
+
+    def run(ctx):
+        nf, nc = ctx.int("nf"), ctx.int("nc")
+        ctx.assume(nf >= 2)
+        ctx.assume(nc >= 1)
+        c0 = SymArray.fresh("c0", nf, "int")
+        c1 = SymArray.fresh("c1", nf, "int")
+        flux = SymArray.fresh("flux", nf, "real")
+        is_dir = SymArray.fresh("is_dir", nf, "bool")
+        is_neu = SymArray.fresh("is_neu", nf, "bool")
+        C0, C1, FL, DIR, NEU = c0._elem, c1._elem, flux._elem, is_dir._elem, is_neu._elem
+        g = z3.Int("__gf")
+        inr = z3.And(g >= 0, g < nf.t)
+        bnd = lambda t: z3.Or(C0(t) < 0, C1(t) < 0)
+        ctx.add_axiom(z3.ForAll([g], z3.Implies(inr, z3.And(C0(g) >= -1, C0(g) < nc.t, C1(g) >= -1, C1(g) < nc.t,
+                                                               z3.Or(C0(g) >= 0, C1(g) >= 0), C0(g) != C1(g))), patterns=[C0(g)]))
+        ctx.add_axiom(z3.ForAll([g], z3.Implies(inr, z3.And(z3.Not(z3.And(DIR(g), NEU(g))), z3.Implies(z3.Or(DIR(g), NEU(g)), bnd(g)),
+                                                               z3.Implies(bnd(g), z3.Or(DIR(g), NEU(g))))), patterns=[DIR(g)]))
+        sgn = SymArray(nf, lambda i: z3.If(C0(i) >= 0, 1, 0) - z3.If(C1(i) >= 0, 1, 0), "int")
+
+        class Div:
+            def sum(self, axis=None):
+                assert axis == 0
+                return sgn
+
+        class Grid:
+            dim = 2
+            num_faces, num_cells = nf, nc
+
+            def cell_faces_as_dense(self):
+                return SymRows([c0.copy(), c1.copy()])
+
+            def divergence(self, dim):
+                assert dim == 1
+                return Div()
+
+        class BC:
+            pass
+
+        bc = BC()
+        bc.is_dir, bc.is_neu = is_dir, is_neu
+        data = {pp.PARAMETERS: {KW: {"bc": bc, "darcy_flux": flux, "num_components": k}}, pp.DISCRETIZATION_MATRICES: {KW: {}}}
+        up = pp.Upwind(KW)
+        up.discretize(Grid(), data)
+        md = data[pp.DISCRETIZATION_MATRICES][KW]
+        U, D, N = md[up.upwind_matrix_key], md[up.bound_transport_dir_matrix_key], md[up.bound_transport_neu_matrix_key]
+        kk = z3.IntVal(k)
+        for M, (r, c_) in ((U, (nf, nc)), (D, (nf, nf)), (N, (nf, nf))):
+            ctx.prove("shapes: upwind (k*num_faces, k*num_cells), boundary matrices (k*num_faces, k*num_faces)",
+                      SymBool(z3.And(sym.iterm(M.shape[0]) == r.t * kk, sym.iterm(M.shape[1]) == c_.t * kk)))
+        # Skolem face f, cell j / face h, components a, b
+        f, j, j2, h, a, b = (ctx.int(n) for n in ("f", "j", "j2", "h", "a", "b"))
+        ctx.assume((f >= 0) & (f < nf) & (j >= 0) & (j < nc) & (j2 >= 0) & (j2 < nc) & (h >= 0) & (h < nf) & (a >= 0) & (a < k) & (b >= 0) & (b < k))
+        ft, jt, j2t, ht, at, bt_ = f.t, j.t, j2.t, h.t, a.t, b.t
+        u = U._entry(ft * kk + at, jt * kk + bt_)
+        u2 = U._entry(ft * kk + at, j2t * kk + bt_)
+        d = D._entry(ft * kk + at, ht * kk + bt_)
+        n_ = N._entry(ft * kk + at, ht * kk + bt_)
+        fl = FL(ft)
+        upstream = z3.If(fl > 0, C0(ft), C1(ft))
+        inflow = z3.And(DIR(ft), upstream < 0)
+        nz = fl != 0
+        one = lambda cond: z3.If(cond, z3.RealVal(1), z3.RealVal(0))
+        ctx.prove("S1: nonzero flux, face neither Neumann nor Dirichlet-inflow: row f has a single 1, in the upstream cell (per component)",
+                  SymBool(z3.Implies(z3.And(nz, z3.Not(NEU(ft)), z3.Not(inflow)), z3.And(upstream >= 0, u == one(z3.And(at == bt_, jt == upstream))))))
+        ctx.prove("S2: Neumann or Dirichlet-inflow face: row f of the upwind matrix is empty",
+                  SymBool(z3.Implies(z3.And(nz, z3.Or(NEU(ft), inflow)), u == 0)))
+        ctx.prove("S3: bound_transport_dir is diagonal with 1 exactly on Dirichlet inflow faces (nonzero flux)",
+                  SymBool(z3.Implies(nz, d == one(z3.And(ft == ht, at == bt_, inflow)))))
+        ctx.prove("S4: bound_transport_neu is diagonal with the divergence sign exactly on Neumann faces",
+                  SymBool(n_ == z3.If(z3.And(ft == ht, at == bt_, NEU(ft)), z3.ToReal(sgn._elem(ft)), z3.RealVal(0))))
+        ctx.prove("S5: zero flux: row f is empty or a single 1 in a cell adjacent to f; boundary data enters on the diagonal of boundary faces only",
+                  SymBool(z3.Implies(fl == 0, z3.And(z3.Or(u == 0, z3.And(u == 1, at == bt_, z3.Or(jt == C0(ft), jt == C1(ft)))),
+                                                     z3.Implies(z3.And(u != 0, u2 != 0), jt == j2t),
+                                                     z3.Implies(d != 0, z3.And(ft == ht, at == bt_, DIR(ft)))))))
+        ctx.assume(nz)
+        ctx.prove("CANARY: the row of a face with positive flux has its entry in the cell the normal points into",
+                  SymBool(z3.Implies(z3.And(fl > 0, C1(ft) >= 0, jt == C1(ft), at == bt_), u == 1)), expect_refuted=True)
+        return "ok"
+
+    return run
+
+
+def prove(rep, pp):
+    from engine import indexmodels, shims
+    from engine.harness import run_case
+    from porepy.numerics.fv import upwind as upmod
+
+    rep.under_contract("pp.Upwind.discretize [tier P: selection clause on a stub grid with symbolic face / cell counts]")
+    rep.assume("grid stub = C21 contract of cell_faces_as_dense / divergence(1) (each face has one or two distinct cells in range; "
+               "-1 = no cell); BC stub = C39 contract (is_dir, is_neu disjoint, boundary faces only) plus the statement's own requires: "
+               "every boundary face is Dirichlet or Neumann; grid has at least 2 faces")
+    refuted = []
+    with shims.shadow_builtins([upmod]), shims.numpy_shims(), indexmodels.index_shims():
+        for k in (1, 2, 3):
+            rf, _ = run_case(rep, f"Upwind.discretize[num_components={k}]", case_selection(pp, k))
+            refuted += rf
+    rep.trust(*sorted(shims.USED_MODELS))
+    for name, ctx, r in refuted:
+        rep.violation(name, name.split(":")[0], inputs=None, detail=f"z3 counter-model: {r['model']}"[:1500], confirmed=False,
+                      solver_output=str(r["model"]))
+
+
 def run(rep):
     import porepy as pp
 
     rep.assume("flux given as normal velocity integrated over the face, positive along the face normal; unit porosity / accumulation "
                "term |cell| in the explicit step")
+    prove(rep, pp)
     sweep(rep, pp)
 
 
